@@ -477,17 +477,17 @@ func TestC01(t *testing.T) {
 		W := rapid.Int64Range(2, 12).Draw(rt, "window")
 		C := rapid.Int64Range(2, 8).Draw(rt, "check")
 		w := newC01World(c, chunk, W, C)
-		nH := rapid.IntRange(2, 4).Draw(rt, "holders")
+		nH := rapid.IntRange(2, 5).Draw(rt, "holders")
 		for i := 0; i < nH; i++ {
 			// posting a proof does not require a provider registration: now and then a holder has none
-			w.addAccount(10+i, true, rapid.IntRange(0, 3).Draw(rt, "holderRegistered") > 0)
+			w.addAccount(10+i, true, rapid.IntRange(0, 5).Draw(rt, "holderRegistered") > 0)
 		}
 		nD := rapid.IntRange(1, 3).Draw(rt, "dishonest")
 		for i := 0; i < nD; i++ {
 			w.addAccount(20+i, false, rapid.Bool().Draw(rt, "dishonestRegistered"))
 		}
 		w.setParams(func(p *storagetypes.Params) {
-			p.AttestFormSize = rapid.Int64Range(1, 2).Draw(rt, "formSize")
+			p.AttestFormSize = rapid.Int64Range(1, 3).Draw(rt, "formSize")
 			p.AttestMinToPass = rapid.Int64Range(1, p.AttestFormSize).Draw(rt, "minToPass")
 		})
 		w.fundGauge(rapid.Int64Range(1_000_000, 1_000_000_000_000).Draw(rt, "gauge"))
@@ -718,6 +718,45 @@ func TestC01(t *testing.T) {
 					}
 				}
 				fail(w.attest(signer, prover, f))
+				if rapid.IntRange(0, 2).Draw(rt, "signsAgain") == 0 { // the same account signs once more straight away
+					fail(w.attest(signer, prover, f))
+				}
+			},
+			"attestRound": func(rt *rapid.T) { // a listed prover asks for a form; a named provider signs, signs again, then others sign
+				if len(w.files) == 0 {
+					rt.Skip()
+				}
+				f := drawFile(rt)
+				listed := w.listedProvers(f)
+				if len(listed) == 0 {
+					rt.Skip()
+				}
+				var prover chain.Account
+				who := listed[rapid.IntRange(0, len(listed)-1).Draw(rt, "prover")]
+				for _, a := range w.accounts {
+					if a.Bech == who {
+						prover = a
+					}
+				}
+				if prover.Bech == "" {
+					rt.Skip()
+				}
+				fail(w.requestAttest(prover, f))
+				form, ok := w.c.App.StorageKeeper.GetAttestationForm(w.f.Ctx, prover.Bech, f.Merkle, f.Owner, f.Start)
+				if !ok {
+					return
+				}
+				for i, at := range form.Attestations {
+					for _, a := range w.accounts {
+						if a.Bech != at.Provider || !rapid.Bool().Draw(rt, "signs") {
+							continue
+						}
+						fail(w.attest(a, prover, f))
+						if i == 0 || rapid.IntRange(0, 3).Draw(rt, "again") == 0 {
+							fail(w.attest(a, prover, f))
+						}
+					}
+				}
 			},
 			"shutdown": func(rt *rapid.T) { // a provider record goes away (collateral refunded); files it proves keep listing it
 				a := w.accounts[rapid.IntRange(0, len(w.accounts)-1).Draw(rt, "who")]
